@@ -166,71 +166,13 @@ Arguments py_number : simpl never.
 Arguments xpath_number : simpl never.
 Arguments num_compare : simpl never.
 
-(* ---- string -> number: _to_number and XPath's number() agree on strings without exotic whitespace / digits *)
-Lemma lstrip_by_ext ws1 ws2 : forall s, (forall c, In c s -> ws1 c = ws2 c) -> lstrip_by ws1 s = lstrip_by ws2 s.
-Proof.
-  induction s as [|c s IH]; intro H; [reflexivity|]. cbn. rewrite (H c (or_introl eq_refl)).
-  destruct (ws2 c); [apply IH; intros; apply H; right; assumption|reflexivity].
-Qed.
-Lemma lstrip_by_incl ws : forall s c, In c (lstrip_by ws s) -> In c s.
-Proof. induction s as [|x s IH]; intros c H; cbn in H; [contradiction|]. destruct (ws x); [right; auto|exact H]. Qed.
-Lemma strip_by_ext ws1 ws2 s : (forall c, In c s -> ws1 c = ws2 c) -> strip_by ws1 s = strip_by ws2 s.
-Proof.
-  intro H. unfold strip_by. rewrite (lstrip_by_ext ws1 ws2 s H). f_equal. apply lstrip_by_ext.
-  intros c Hc. apply in_rev in Hc. apply lstrip_by_incl in Hc. auto.
-Qed.
-Lemma strip_by_incl ws s c : In c (strip_by ws s) -> In c s.
-Proof. unfold strip_by. intro H. apply in_rev in H. apply lstrip_by_incl in H. apply in_rev in H. apply lstrip_by_incl in H. exact H. Qed.
-Lemma digits_val_ext d1 d2 : forall l acc, (forall c, In c l -> d1 c = d2 c) -> digits_val d1 acc l = digits_val d2 acc l.
-Proof.
-  induction l as [|c l IH]; intros acc H; [reflexivity|]. cbn. rewrite (H c (or_introl eq_refl)).
-  destruct (d2 c); [apply IH; intros; apply H; right; assumption|reflexivity].
-Qed.
-Lemma split_dot_incl : forall s a b, split_dot s = (a, b) ->
-  (forall c, In c a -> In c s) /\ (forall f, b = Some f -> forall c, In c f -> In c s).
-Proof.
-  induction s as [|x s IH]; intros a b H; cbn in H.
-  - inversion H; subst. split; [tauto|discriminate].
-  - destruct (N.eqb x 46).
-    + inversion H; subst. split; [intros c []|]. intros f Hf c Hc. inversion Hf; subst. right. exact Hc.
-    + destruct (split_dot s) as [a' b'] eqn:E. inversion H; subst. destruct (IH a' b eq_refl) as [I1 I2]. split.
-      * intros c [->|Hc]; [left; reflexivity|right; auto].
-      * intros f Hf c Hc. right. eapply I2; eauto.
-Qed.
-Lemma parse_number_ext ws1 d1 ws2 d2 s :
-  (forall c, In c s -> ws1 c = ws2 c /\ d1 c = d2 c) -> parse_number ws1 d1 s = parse_number ws2 d2 s.
-Proof.
-  intro H. unfold parse_number. rewrite (strip_by_ext ws1 ws2 s) by (intros c Hc; apply H; exact Hc).
-  pose proof (strip_by_incl ws2 s) as Ht. set (t := strip_by ws2 s) in *.
-  assert (Hb : forall neg body, (match t with c :: r => if N.eqb c 45 then (true, r) else (false, t) | [] => (false, t) end) = (neg, body) ->
-                                forall c, In c body -> In c s).
-  { intros neg body E c Hc. apply Ht. destruct t as [|x r]; [inversion E; subst; exact Hc|].
-    destruct (N.eqb x 45); inversion E; subst; [right; exact Hc|exact Hc]. }
-  destruct (match t with c :: r => if N.eqb c 45 then (true, r) else (false, t) | [] => (false, t) end) as [neg body] eqn:E.
-  specialize (Hb neg body eq_refl). destruct (split_dot body) as [ip fp] eqn:Es.
-  destruct (split_dot_incl body ip fp Es) as [I1 I2].
-  destruct fp as [f|].
-  - destruct (null ip && null f); [reflexivity|].
-    rewrite (digits_val_ext d1 d2 (ip ++ f)); [reflexivity|].
-    intros c Hc. apply H. apply Hb. apply in_app_or in Hc as [Hc|Hc]; [auto|eapply I2; eauto].
-  - destruct ip as [|x ip']; [reflexivity|].
-    rewrite (digits_val_ext d1 d2 (x :: ip')); [reflexivity|]. intros c Hc. apply H. apply Hb. auto.
-Qed.
-Lemma opt_N_eqb_eq a b : opt_N_eqb a b = true -> a = b.
-Proof. destruct a, b; cbn; try discriminate; [intro H; apply N.eqb_eq in H; congruence|reflexivity]. Qed.
-Lemma py_number_clean s : num_clean s = true -> py_number s = xpath_number s.
-Proof.
-  unfold num_clean, py_number, xpath_number. rewrite forallb_forall. intro H. apply parse_number_ext.
-  intros c Hc. specialize (H c Hc). apply andb_prop in H as [H1 H2]. split; [apply Bool.eqb_prop; exact H1|apply opt_N_eqb_eq; exact H2].
-Qed.
-
 (* ---- corresponding values *)
 Inductive vrel : ty -> pyval -> rval -> Prop :=
 | vr_num n : vrel TNum (PInt n) (RNum n)
-| vr_str s : num_clean s = true -> vrel TStr (PStr s) (RStr s)
+| vr_str s : vrel TStr (PStr s) (RStr s)
 | vr_bool b : vrel TBool (PBool b) (RBool b)
 | vr_attr_none : vrel TAttr PNone (RAttrs [])                       (* no such attribute: None / the empty node-set *)
-| vr_attr_some v : num_clean v = true -> vrel TAttr (PStr v) (RAttrs [v]).
+| vr_attr_some v : vrel TAttr (PStr v) (RAttrs [v]).
 
 Definition attr_list (ns l : str) (c : nd) : list str :=
   if is_tagnode c then match get_attr ns l (tag_attrs c) with Some v => [v] | None => [] end else [].
@@ -291,15 +233,22 @@ Lemma orb_false_r' b : b || false = b. Proof. destruct b; reflexivity. Qed.
 (* the comparison operators: BooleanOperator.evaluate computes what section 3.4 says *)
 Lemma cmp_agree ta tb va vb ra rb c :
   vrel ta va ra -> vrel tb vb rb ->
-  (ty_eqb ta TAttr && ty_eqb tb TBool) || (ty_eqb ta TBool && ty_eqb tb TAttr) = false ->
-  py_compare c va vb = r_compare c ra rb.
+  py_compare (ty_eqb ta TAttr) (ty_eqb tb TAttr) c va vb = r_compare c ra rb.
 Proof.
-  intros Ha Hb Hx. inversion Ha; subst; inversion Hb; subst; try discriminate Hx; clear Ha Hb Hx;
-    destruct c; unfold py_compare, r_compare, atom_compare;
-    cbn [is_pybool is_pyint is_rbool is_rnum orb Eval.to_number to_number truthy to_bool existsb null negb];
-    rewrite ?orb_false_r';
-    repeat match goal with H : num_clean _ = true |- _ => rewrite ?(py_number_clean _ H); clear H end;
-    reflexivity.
+  intros Ha Hb. inversion Ha; subst; inversion Hb; subst; clear Ha Hb;
+    destruct c; unfold py_compare, r_compare, atom_compare, py_number;
+    cbn [ty_eqb is_pybool is_pyint is_pynone is_rbool is_rnum orb Eval.to_number to_number truthy to_bool existsb null negb];
+    rewrite ?orb_false_r'; reflexivity.
+Qed.
+Lemma is_attrval_ty e a : ty_of e = Some a -> is_attrval e = ty_eqb a TAttr.
+Proof.
+  destruct e as [[s|n]|p l|p l|o l r|name args]; cbn; try (intro H; inversion H; reflexivity).
+  - destruct (ty_of l), (ty_of r); try discriminate.
+    destruct o; repeat match goal with |- (if ?b then _ else _) = _ -> _ => destruct b end; intro H; inversion H; reflexivity.
+  - repeat match goal with
+           | |- (if ?b then _ else _) = _ -> _ => destruct b
+           | |- match ?x with _ => _ end = _ -> _ => destruct x
+           end; intro H; inversion H; reflexivity.
 Qed.
 
 Lemma f_lookup_position : f_lookup xpath_functions FN_position = Some {| f_nparams := 0; f_variadic := false; f_body := FCtxPosition |}.
@@ -310,9 +259,9 @@ Lemma f_lookup_not : f_lookup xpath_functions FN_not = Some {| f_nparams := 1; f
 Proof. reflexivity. Qed.
 Lemma f_lookup_boolean : f_lookup xpath_functions FN_boolean = Some {| f_nparams := 1; f_variadic := false; f_body := FBool 0 |}.
 Proof. reflexivity. Qed.
-Lemma f_lookup_contains : f_lookup xpath_functions FN_contains = Some {| f_nparams := 2; f_variadic := false; f_body := FIn 1 0 |}.
+Lemma f_lookup_contains : f_lookup xpath_functions FN_contains = Some {| f_nparams := 2; f_variadic := false; f_body := FInS 1 0 |}.
 Proof. reflexivity. Qed.
-Lemma f_lookup_starts_with : f_lookup xpath_functions FN_starts_with = Some {| f_nparams := 2; f_variadic := false; f_body := FStartsWith 0 1 |}.
+Lemma f_lookup_starts_with : f_lookup xpath_functions FN_starts_with = Some {| f_nparams := 2; f_variadic := false; f_body := FStartsWithS 0 1 |}.
 Proof. reflexivity. Qed.
 
 Ltac inv_ex :=
@@ -323,15 +272,15 @@ Ltac inv_ex :=
 
 Lemma d_expr_binop m o l r c pos size :
   d_expr m (BooleanOperator o l r) c pos size =
-  bind (d_expr m l c pos size) (fun a => bind (d_expr m r c pos size) (fun b => py_binop o a b)).
+  bind (d_expr m l c pos size) (fun a => bind (d_expr m r c pos size) (fun b => py_binop (is_attrval l) (is_attrval r) o a b)).
 Proof. reflexivity. Qed.
 Lemma str_is_eq a b : str_is a b = true -> a = b.
 Proof. apply str_eqb_eq. Qed.
 
 (* a function receives "" for None *)
 Definition none_to_empty (v : pyval) : pyval := match v with PNone => PStr [] | _ => v end.
-Lemma stringy_value t v rv : stringy t = true -> vrel t v rv -> exists s, none_to_empty v = PStr s /\ to_str rv = Some s.
-Proof. intros S H. inversion H; subst; try discriminate S; cbn; eauto. Qed.
+Lemma str_value t v rv : vrel t v rv -> to_str rv = Some (py_to_string (none_to_empty v)).
+Proof. intro H. inversion H; subst; reflexivity. Qed.
 Lemma d_expr_fn1 m name x c pos size v : d_expr m x c pos size = Ok v ->
   d_expr m (Function name [x]) c pos size = call_fn name [none_to_empty v] c pos size.
 Proof. intro H. cbn [d_expr]. rewrite H. reflexivity. Qed.
@@ -344,14 +293,13 @@ Lemma expr_agrees m e :
   exists v rv, d_expr m e c pos size = Ok v /\ r_expr m e c pos size = Some rv /\ vrel t v rv.
 Proof.
   induction e as [[s|n]|p l|p l|o l r IHl IHr|name args IH] using expr_ind'; intros t c pos size Hty Hh Hb.
-  - cbn in Hty; inversion Hty; subst. cbn in Hh. apply negb_false_iff in Hh.
-    exists (PStr s), (RStr s). repeat split. constructor. exact Hh.
+  - cbn in Hty; inversion Hty; subst. exists (PStr s), (RStr s). repeat split. constructor.
   - cbn in Hty; inversion Hty; subst. exists (PInt n), (RNum n). repeat split. constructor.
   - (* AttributeValue *)
-    cbn in Hty; inversion Hty; subst. cbn [hazard] in Hh. apply orb_false_elim in Hh as [Hj Hc].
-    destruct (attr_value_eval m p l c pos size Hj Hb) as (Hd & Hr).
+    cbn in Hty; inversion Hty; subst. cbn [hazard] in Hh.
+    destruct (attr_value_eval m p l c pos size Hh Hb) as (Hd & Hr).
     eexists _, _. split; [exact Hd|]. split; [exact Hr|].
-    destruct (attr_of m p l c) as [v|]; [constructor; apply negb_false_iff; exact Hc|constructor].
+    destruct (attr_of m p l c) as [v|]; constructor.
   - (* HasAttribute *)
     cbn in Hty; inversion Hty; subst. cbn [hazard bound] in Hh, Hb. cbn [d_expr r_expr].
     rewrite (unknown_prefix_ok _ _ Hb), (r_attr_bound _ _ _ _ Hb). unfold attr_list.
@@ -375,13 +323,10 @@ Proof.
       assert (Tl : truthy vl = to_bool rl) by (apply (truthy_to_bool a); [exact Hvl|intros ->; discriminate Na]).
       assert (Tr : truthy vr = to_bool rr) by (apply (truthy_to_bool b); [exact Hvr|intros ->; discriminate Nb]).
       destruct Ho' as [-> | ->]; cbn [r_expr py_binop]; rewrite Hrl, Hrr, Tl, Tr; eexists _, _; repeat split; constructor.
-    + assert (Hx : (ty_eqb a TAttr && ty_eqb b TBool) || (ty_eqb a TBool && ty_eqb b TAttr) = false /\ t = TBool).
-      { destruct o; cbn in Hao; try discriminate Hao; cbn in Hty;
-          destruct ((ty_eqb a TAttr && ty_eqb b TBool) || (ty_eqb a TBool && ty_eqb b TAttr)); try discriminate;
-          inversion Hty; auto. }
-      destruct Hx as [Hx ->].
+    + assert (t = TBool) by (destruct o; cbn in Hao; try discriminate Hao; cbn in Hty; inversion Hty; reflexivity). subst t.
+      rewrite (is_attrval_ty l a Ha), (is_attrval_ty r b Hbt).
       destruct o; cbn in Hao; try discriminate Hao; cbn [r_expr py_binop cmp_of cmpop_of]; rewrite Hrl, Hrr;
-        rewrite (cmp_agree a b vl vr rl rr _ Hvl Hvr Hx); eexists _, _; repeat split; constructor.
+        rewrite (cmp_agree a b vl vr rl rr _ Hvl Hvr); eexists _, _; repeat split; constructor.
   - (* Function *)
     cbn [ty_of] in Hty. cbn [hazard] in Hh. apply orb_false_elim in Hh as [Hha Hhc]. cbn [bound] in Hb.
     destruct (str_is name FN_position || str_is name FN_last) eqn:E1.
@@ -398,7 +343,7 @@ Proof.
       assert (Htb : truthy (none_to_empty v) = to_bool rv).
       { inversion Hv; subst; try reflexivity. cbn.
         apply ty_attr_inv in Hx as (q & k & ->). cbn in Hhc.
-        cbn [hazard] in Hhx. apply orb_false_elim in Hhx as [Hj _]. destruct (attr_value_eval m q k c pos size Hj Hbx) as (Hd' & _).
+        cbn [hazard] in Hhx. destruct (attr_value_eval m q k c pos size Hhx Hbx) as (Hd' & _).
         rewrite Hd' in Hd. unfold attr_empty in Hhc. destruct (attr_of m q k c) as [w|]; [|discriminate Hd].
         inversion Hd; subst. rewrite Hhc. reflexivity. }
       apply orb_prop in E2 as [E|E]; apply str_is_eq in E; subst name.
@@ -411,20 +356,19 @@ Proof.
     destruct (str_is name FN_contains || str_is name FN_starts_with) eqn:E3; [|discriminate].
     destruct args as [|x [|y [|z args]]]; try (cbn in Hty; repeat match type of Hty with context [ty_of ?z] => destruct (ty_of z) end; discriminate).
     destruct (ty_of x) as [tx|] eqn:Hx; [|discriminate]. destruct (ty_of y) as [ty'|] eqn:Hy; [|discriminate].
-    destruct (stringy tx && stringy ty') eqn:Hst; [|discriminate]. inversion Hty; subst.
-    apply andb_prop in Hst as [Sx Sy].
+    inversion Hty; subst.
     inversion IH as [|? ? IHx IH']; subst. inversion IH' as [|? ? IHy _]; subst.
     apply orb_false_elim in Hha as [Hhx Hha]. apply orb_false_elim in Hha as [Hhy _].
     apply andb_prop in Hb as [Hbx Hb]. apply andb_prop in Hb as [Hby _].
     destruct (IHx tx c pos size Hx Hhx Hbx) as (vx & rx & Hdx & Hrx & Hvx).
     destruct (IHy ty' c pos size Hy Hhy Hby) as (vy & ry & Hdy & Hry & Hvy).
-    destruct (stringy_value _ _ _ Sx Hvx) as (sx & Ex & Tx). destruct (stringy_value _ _ _ Sy Hvy) as (sy & Ey & Ty).
+    pose proof (str_value _ _ _ Hvx) as Tx. pose proof (str_value _ _ _ Hvy) as Ty.
     apply orb_prop in E3 as [E|E]; apply str_is_eq in E; subst name.
-    + exists (PBool (py_contains sx sy)), (RBool (py_contains sx sy)).
-      split; [rewrite (d_expr_fn2 _ _ _ _ _ _ _ _ _ Hdx Hdy), Ex, Ey; reflexivity|].
+    + eexists (PBool _), (RBool _).
+      split; [rewrite (d_expr_fn2 _ _ _ _ _ _ _ _ _ Hdx Hdy); reflexivity|].
       split; [cbn [r_expr]; rewrite Hrx, Hry; cbn; rewrite Tx, Ty; reflexivity|]. constructor.
-    + exists (PBool (py_startswith sx sy)), (RBool (py_startswith sx sy)).
-      split; [rewrite (d_expr_fn2 _ _ _ _ _ _ _ _ _ Hdx Hdy), Ex, Ey; reflexivity|].
+    + eexists (PBool _), (RBool _).
+      split; [rewrite (d_expr_fn2 _ _ _ _ _ _ _ _ _ Hdx Hdy); reflexivity|].
       split; [cbn [r_expr]; rewrite Hrx, Hry; cbn; rewrite Tx, Ty; reflexivity|]. constructor.
 Qed.
 
